@@ -17,6 +17,9 @@ mc/ref/c20_child.py is the code that runs there, mc/ref/c20_drivers.py the canne
      module dictionary or in builtins; each attribute chain rooted at a module object must resolve
      on the real module objects of the only-own-subpackage interpreter; each lena-internal
      ``from m import n`` must find n.
+ (d) every error case that a docstring documents with a named exception, for every argument of a small
+     pool of the documented invalid kind (mc/ref/c20_documented.py, about 170 calls): the call raises an
+     instance of one of the named LenaException subclasses.
 """
 import json
 import os
@@ -49,7 +52,8 @@ ASSUMPTIONS = [
     "repr) and by exception type only; messages are never compared",
     "forbidden outcomes are exactly: NameError (incl. UnboundLocalError) whose raising frame is inside "
     "lena/, and AttributeError whose object is a lena module; plain TypeError/ValueError from unsuitable "
-    "arguments are accepted (the statement forbids only undefined names)",
+    "arguments are accepted in part (b) (for an arbitrary unsuitable argument the statement forbids only "
+    "undefined names); where a docstring names the exception of an error case, part (d) demands it",
     "numpy and ROOT are absent: NumpyHistogram is probed only up to its ImportError; the ROOT elements "
     "are additionally driven with a behaviour-free stand-in module named ROOT (classes TFile, TTree, "
     "TGraphErrors) so that the code after 'import ROOT' runs; external programs are never started "
@@ -107,7 +111,34 @@ def shards(tier):
         els = drivers.elements_of(sp)
         for i in range(0, len(els), group):
             out.append({"kind": "dyn", "sp": sp, "elements": els[i:i + group]})
+    out.append({"kind": "documented"})
     return out
+
+
+def run_documented(res, only_case=None):
+    """(d) error cases that a docstring documents with a named exception (mc/ref/c20_documented.py): every
+    listed call with every argument of its pool raises an instance of one of the named classes."""
+    import lena.core
+    from mc.ref import c20_documented
+    for e in c20_documented.entries():
+        for i, thunk in enumerate(e["thunks"]):
+            case = {"part": "d", "sp": "lena", "law": "documented-error", "doc": e["doc"], "case": i}
+            if only_case is not None and (only_case["doc"], only_case["case"]) != (e["doc"], i):
+                continue
+            try:
+                got = "returned " + repr(thunk())[:80]
+                ok = False
+            except Exception as x:  # noqa: judged by type
+                ok = any(isinstance(x, getattr(lena.core, c)) for c in e["exc"])
+                got = "raised " + type(x).__name__
+            res.case(nontrivial=True, outcome=("documented", e["doc"], i, got))
+            res.count("d_documented_error_cases")
+            if not ok:
+                res.violation(case, got, "raises " + " or ".join(e["exc"]),
+                              {"law": "documented-error", "doc": e["doc"].split(" ")[0],
+                               "observed": got if got.startswith("raised") else "returned"})
+    res.sample({"part": "d", "sp": "lena", "law": "documented-error",
+                "doc": "math/utils.py:26 clip: interval is not a container", "case": 0}, 1)
 
 
 # ------------------------------------------------------------------------------------------------
@@ -427,6 +458,8 @@ def run_shard(p, tier):
     with scratch_dir("lena-verif-c20-") as base:
         if p["kind"] == "static":
             run_static(res, p, base)
+        elif p["kind"] == "documented":
+            run_documented(res)
         else:
             run_dyn(res, p, tier, base)
     return res
@@ -434,6 +467,9 @@ def run_shard(p, tier):
 
 def replay(case):
     res = Result()
+    if case.get("part") == "d":
+        run_documented(res, only_case=case)
+        return result_violations(res)
     with scratch_dir("lena-verif-c20-") as base:
         part = case.get("part")
         sp = case["sp"]
